@@ -326,8 +326,43 @@ StylesheetHandler::startElement(
                 case StylesheetConstructionContext::ELEMNAME_MESSAGE:
                 case StylesheetConstructionContext::ELEMNAME_NUMBER:
                 case StylesheetConstructionContext::ELEMNAME_VALUE_OF:
-                case StylesheetConstructionContext::ELEMNAME_WITH_PARAM:
                 case StylesheetConstructionContext::ELEMNAME_PI:
+                    elem = m_constructionContext.createElement(
+                                                xslToken,
+                                                m_stylesheet,
+                                                atts,
+                                                locator);
+                    assert(elem != 0);
+                    break;
+
+                case StylesheetConstructionContext::ELEMNAME_WITH_PARAM:
+                    {
+                        // xsl:with-param is only allowed in xsl:call-template and
+                        // xsl:apply-templates, which evaluate it themselves.  It is
+                        // not an instruction, and cannot be executed as one.  (The
+                        // children of an extension element, or of an instruction of
+                        // a later version of XSLT, are never executed.)
+                        const int   parentToken =
+                            m_elemStack.empty() == true ?
+                                StylesheetConstructionContext::ELEMNAME_UNDEFINED :
+                                m_elemStack.back()->getXSLToken();
+
+                        if (parentToken != StylesheetConstructionContext::ELEMNAME_CALL_TEMPLATE &&
+                            parentToken != StylesheetConstructionContext::ELEMNAME_APPLY_TEMPLATES &&
+                            parentToken != StylesheetConstructionContext::ELEMNAME_FORWARD_COMPATIBLE &&
+                            inExtensionElement() == false)
+                        {
+                            const GetCachedString   theGuard(m_constructionContext);
+
+                            error(
+                                XalanMessageLoader::getMessage(
+                                    theGuard.get(),
+                                    XalanMessages::IsNotAllowedInThisPosition_1Param,
+                                    Constants::ELEMNAME_WITHPARAM_WITH_PREFIX_STRING),
+                                locator);
+                        }
+                    }
+
                     elem = m_constructionContext.createElement(
                                                 xslToken,
                                                 m_stylesheet,
